@@ -36,6 +36,19 @@ Theorem flag_names : forall p ne te fs tmpl regs,
           regs (paths (flag_keys p fs)).
 Proof. exact flag_names_l. Qed.
 
+(* Registration never shadows: when the flags are registered (no error), no
+   two leaves share a flag name (the "-" tag, which suppresses registration,
+   aside), and - std package - no registered name is one the flag package
+   rejects.  Otherwise the constructor returns an error (Err 32 / 33 in the
+   model; the repository fixes made these errors: before, a colliding flag
+   was silently dropped and the other flag's value written into its field,
+   and a name beginning with '-' panicked). *)
+Theorem flag_registration_never_shadows : forall p ne te fs tmpl regs,
+  flag_regs p ne te fs tmpl = Ok regs ->
+  has_dup (filter named (map rg_name regs)) = false /\
+  (p = PStd -> forallb (fun r => dash_tag p (rg_leaf r) || negb (bad_std_name (rg_name r))) regs = true).
+Proof. exact flag_registration_never_shadows_l. Qed.
+
 (* The default every flag is registered with is the template's value of its
    leaf, read POSITIONALLY from the template (tl_fields: the leaves of the
    config type in flattening order; a nil pointer on the way, or a nil user
@@ -178,6 +191,7 @@ Theorem flag_named_complex_pre_fix_refuted :
 Proof. exact flag_named_complex_pre_fix_refuted_l. Qed.
 
 Print Assumptions flag_names.
+Print Assumptions flag_registration_never_shadows.
 Print Assumptions flag_out_of_range_is_error_float32.
 Print Assumptions flag_named_complex_pre_fix_refuted.
 Print Assumptions flag_defaults_are_template.
